@@ -5,11 +5,13 @@ package externalcmd
 import (
 	"errors"
 	"fmt"
+	"net/url"
 	"os"
 	"path/filepath"
 	"regexp"
 	"strings"
 	"testing"
+	"testing/synctest"
 
 	"github.com/kballard/go-shellquote"
 
@@ -52,9 +54,15 @@ func init() {
 		}
 	}
 	sb.WriteString("\n")
-	if err := os.WriteFile(out, []byte(sb.String()), 0o644); err != nil {
+	// append: a restarting hook and the hook scenarios record several runs in the same file
+	fh, err := os.OpenFile(out, os.O_APPEND|os.O_CREATE|os.O_WRONLY, 0o644)
+	if err != nil {
 		os.Exit(201)
 	}
+	if _, err = fh.WriteString(sb.String()); err != nil {
+		os.Exit(201)
+	}
+	fh.Close()
 	os.Exit(verifutil.Atoi(os.Getenv("VERIF_C21_EXIT")))
 }
 
@@ -93,7 +101,13 @@ func verifC21FmtWords(w []string) string {
 	return "w=" + strings.Join(p, ",")
 }
 
+// VerifC21Hook runs one `hk` op (two overlapping readers of one real path through the real
+// hooks.OnRead). It is set by the external test file zz_verif_c21_x_test.go, which may import
+// internal/core and internal/hooks (this package cannot: they import it).
+var VerifC21Hook func(f []string, helper, hout string, setenv func(keys string)) string
+
 var (
+	verifC21T      *testing.T
 	verifC21Dir    string
 	verifC21Helper string
 	verifC21CodeRe = regexp.MustCompile(`^command exited with code (-?[0-9]+)$`)
@@ -237,6 +251,83 @@ func verifC21Exec(op string) string {
 			}
 		}
 		return fmt.Sprintf("ran argv=%s env=%s report=%s", lines[0], lines[1], report)
+
+	case "rst":
+		// a Restart:true hook, observed for n runs. The 5 s restartPause is a constant of the package: the
+		// command runs inside a testing/synctest bubble, whose fake clock jumps over the pause as soon as
+		// run() sleeps in it (child processes are real; while one runs the bubble is not idle).
+		tmpl := verifutil.UnHexS(f[1])
+		envl := verifC21ParseEnv(f[3])
+		osenvl := verifC21ParseEnv(f[4])
+		code := verifutil.Atoi(f[5])
+		n := verifutil.Atoi(f[6])
+		cmdstr := verifC21Helper + " " + tmpl
+		if o := verifC21Oracle(cmdstr, true); o != f[2] {
+			return "oracle-mismatch " + o
+		}
+		env := Environment{}
+		var keys []string
+		seen := map[string]bool{}
+		for _, l := range [][]verifC21KV{envl, osenvl} {
+			for _, kv := range l {
+				if !seen[kv.k] {
+					seen[kv.k] = true
+					keys = append(keys, verifutil.HexS(kv.k))
+				}
+			}
+		}
+		for _, kv := range envl {
+			env[kv.k] = kv.v
+		}
+		hout := filepath.Join(verifC21Dir, "out")
+		os.Remove(hout) //nolint:errcheck
+		verifC21SetOSEnv(osenvl, map[string]string{
+			"VERIF_C21_HOUT": hout,
+			"VERIF_C21_KEYS": strings.Join(keys, ","),
+			"VERIF_C21_EXIT": fmt.Sprint(code),
+		})
+		var errs []error
+		synctest.Test(verifC21T, func(_ *testing.T) {
+			p := &Pool{}
+			p.Initialize()
+			exits := make(chan error, 64)
+			c := &Cmd{Pool: p, Cmdstr: cmdstr, Restart: true, Env: env, OnExit: func(err error) { exits <- err }}
+			c.Start()
+			for len(errs) < n {
+				errs = append(errs, <-exits)
+			}
+			c.Close()
+			p.Close()
+		})
+		b, _ := os.ReadFile(hout)
+		lines := strings.Split(strings.TrimSuffix(string(b), "\n"), "\n")
+		if len(b) == 0 {
+			lines = nil
+		}
+		var segs []string
+		for _, e := range errs {
+			if m := verifC21CodeRe.FindStringSubmatch(e.Error()); m != nil {
+				if len(lines) < 2 {
+					segs = append(segs, "exit-without-run")
+					continue
+				}
+				segs = append(segs, fmt.Sprintf("ran argv=%s env=%s report=code:%s", lines[0], lines[1], m[1]))
+				lines = lines[2:]
+			} else {
+				segs = append(segs, verifC21ClassifyErr(e))
+			}
+		}
+		return strings.Join(segs, " | ")
+
+	case "hk":
+		if VerifC21Hook == nil {
+			return "hk-unavailable"
+		}
+		hout := filepath.Join(verifC21Dir, "out")
+		os.Remove(hout) //nolint:errcheck
+		return VerifC21Hook(f, verifC21Helper, hout, func(keys string) {
+			verifC21SetOSEnv(nil, map[string]string{"VERIF_C21_HOUT": hout, "VERIF_C21_KEYS": keys, "VERIF_C21_EXIT": "0"})
+		})
 
 	case "raw":
 		cmdstr := verifutil.UnHexS(f[1])
@@ -447,6 +538,35 @@ func verifC21TmplWord(r *verifutil.Rand, env, osenv []verifC21KV, hostile bool) 
 	return sb.String()
 }
 
+// hk <nameHex> <portHex> w=<groups> <mode> <q1esc> <type1> <id1> <q2esc> <type2> <id2> <q1raw> <q2raw>
+// (the escaped queries are oracle columns: url.QueryEscape, re-checked by the op)
+func verifC21GenHook(r *verifutil.Rand) string {
+	name := r.Pick("cam1", "live/stream", "a/b_c.d-e", "te_st")
+	port := r.Pick("8554", "8554", "18554", "")
+	ng := r.Intn(4)
+	groups := make([]string, ng)
+	for j := range groups {
+		groups[j] = r.Pick("st", "1", "a/b", "", "G1", "x_y")
+	}
+	q := func() string {
+		return r.Pick("who=first", "who=second", "", "user=a&pass=b c", "x=$MTX_PATH&y=${G1}", "t=é\"'", "a=1;b=2", "token="+fmt.Sprint(r.Intn(100000)))
+	}
+	q1, q2 := q(), q()
+	if q1 == q2 {
+		q2 += "&n=2"
+	}
+	ty := func() string { return r.Pick("rtspSession", "rtmpConn", "hlsMuxer", "webRTCSession", "srtConn") }
+	id := func() string { return fmt.Sprintf("%08x-%04x-4%03x-a%03x-%012x", r.U64()&0xffffffff, r.U64()&0xffff, r.U64()&0xfff, r.U64()&0xfff, r.U64()&0xffffffffffff) }
+	mode := "u"
+	if r.Chance(1, 4) {
+		mode = "ru"
+	}
+	return fmt.Sprintf("hk %s %s %s %s %s %s %s %s %s %s %s %s", verifutil.HexS(name), verifutil.HexS(port), verifC21FmtWords(groups), mode,
+		verifutil.HexS(url.QueryEscape(q1)), verifutil.HexS(ty()), verifutil.HexS(id()),
+		verifutil.HexS(url.QueryEscape(q2)), verifutil.HexS(ty()), verifutil.HexS(id()),
+		verifutil.HexS(q1), verifutil.HexS(q2))
+}
+
 func verifC21Gen(r *verifutil.Rand, i int, thorough bool) []string {
 	return verifC21Gen1(r, i, thorough) // props/C21.json says "stateless": every op is its own history
 }
@@ -455,14 +575,32 @@ func verifC21Gen1(r *verifutil.Rand, i int, thorough bool) []string {
 	// starting a process costs 0.1–0.2 s in the sandbox: 1 real run per 50 cases (each run carries
 	// several words and variables), the rest exercise expandEnv in-process
 	switch {
-	case i%50 == 0: // run
-		hostile := r.Chance(1, 6)
+	case i%800 == 25: // two overlapping readers of one real path, through the real hooks.OnRead
+		return []string{verifC21GenHook(r)}
+	case i%100 == 50 || i%200 == 0: // run (every 100th case) / restarting hook observed for 2 runs (every 200th)
+		restart := i%200 == 0
+		hostile := r.Chance(1, 6) && !restart
 		env := verifC21Env(r, hostile)
 		osenv := verifC21OSEnv(r)
 		nw := r.Intn(9)
 		words := make([]string, nw)
 		for j := range words {
 			words[j] = verifC21TmplWord(r, env, osenv, hostile)
+		}
+		if restart {
+			// make sure a referenced value itself looks like a reference: a second expansion would change it
+			k := verifC21Keys[r.Intn(len(verifC21Keys))]
+			v := r.Pick("cam $1 it's ${UNSET_V}x$UNSET_V/y", "$MTX_PATH", "${G1}", "a$G2", "$1", "$$", "${", "x${}y", "$OSV1", "100$", "$9z")
+			found := false
+			for j := range env {
+				if env[j].k == k {
+					env[j].v, found = v, true
+				}
+			}
+			if !found {
+				env = append(env, verifC21KV{k, v})
+			}
+			words = append(words, r.Pick("$"+k, "${"+k+"}", "pre-$"+k, "\"$"+k+"\""))
 		}
 		sep := " "
 		if r.Chance(1, 8) {
@@ -477,6 +615,10 @@ func verifC21Gen1(r *verifutil.Rand, i int, thorough bool) []string {
 			code = 1
 		default:
 			code = r.Intn(256)
+		}
+		if restart {
+			return []string{fmt.Sprintf("rst %s %s %s %s %d 2", verifutil.HexS(tmpl),
+				verifC21Oracle("H "+tmpl, true), verifC21FmtEnv(env), verifC21FmtEnv(osenv), code)}
 		}
 		return []string{fmt.Sprintf("run %s %s %s %s %d", verifutil.HexS(tmpl),
 			verifC21Oracle("H "+tmpl, true), verifC21FmtEnv(env), verifC21FmtEnv(osenv), code)}
@@ -505,6 +647,13 @@ func verifC21Class(op, impl string) string {
 	switch f[0] {
 	case "reset":
 		return "reset"
+	case "rst":
+		if strings.Contains(impl, "report=code") {
+			return "rst/ran-twice"
+		}
+		return "rst/" + a[0]
+	case "hk":
+		return "hk/" + f[4]
 	case "exp":
 		w := verifutil.UnHexS(f[1])
 		switch {
@@ -532,13 +681,14 @@ func verifC21Class(op, impl string) string {
 }
 
 func TestVerifC21(t *testing.T) {
+	verifC21T = t
 	defer func() {
 		if verifC21Dir != "" {
 			os.RemoveAll(verifC21Dir) //nolint:errcheck
 		}
 	}()
 	verifutil.Main(t, &verifutil.Harness{
-		ID: "C21", Exec: verifC21Exec, Gen: verifC21Gen, Quick: 4000, Thorough: 80000,
+		ID: "C21", Exec: verifC21Exec, Gen: verifC21Gen, Quick: 3200, Thorough: 80000,
 		Class: verifC21Class,
 		NonTrivial: func(op, impl string) bool {
 			return op != "reset" && strings.Contains(verifutil.UnHexS(strings.Fields(op)[1]), "$")
